@@ -57,6 +57,9 @@ type State struct {
 	Cancel  context.CancelFunc
 	PipeVal []byte // value to return from pipe() function
 	NoReg   bool   // don't use registers.
+	// The done Context cancelStack was taken for (see Stack()).
+	cancelled   context.Context //nolint:containedctx // as above.
+	cancelStack []string
 	// Current file being processed (TODO: use it to have parsing errors showing as filename:line...)
 	CurrentFile string
 }
